@@ -21,6 +21,7 @@ type chunkPort struct {
 	late   func(i int) bool
 	idx    int
 	lateBy time.Duration
+	sticky bool // keep the piece counter across Writes (server side: its Write is the answer)
 }
 
 func (c *chunkPort) set(k int, late func(i int) bool) {
@@ -31,7 +32,9 @@ func (c *chunkPort) set(k int, late func(i int) bool) {
 
 func (c *chunkPort) Write(b []byte) (int, error) {
 	c.mu.Lock()
-	c.idx = 0
+	if !c.sticky {
+		c.idx = 0
+	}
 	c.mu.Unlock()
 	return c.pktEnd.Write(b)
 }
@@ -63,6 +66,10 @@ type c19rrCase struct {
 	K       int    `json:"bytes_per_port_read"`
 	Pattern string `json:"pattern"` // "now", "late", "late@i", "now@i"
 	At      int    `json:"at"`
+	// server side: 0 = the server reads the line directly; k > 0 = the server too sits behind a response
+	// reader and its port hands the request out in pieces of at most k bytes (at once / each 1 ms late)
+	ServerK    int  `json:"server_bytes_per_port_read,omitempty"`
+	ServerLate bool `json:"server_pieces_late,omitempty"`
 }
 
 func (c c19rrCase) late() func(int) bool {
@@ -89,14 +96,23 @@ type c19rrLink struct {
 	done   chan struct{}
 }
 
-func newRRLink(spec regMapSpec) *c19rrLink {
+func newRRLink(spec regMapSpec, serverK int, serverLate bool) *c19rrLink {
 	l := &c19rrLink{regs: spec.build(), ref: spec.ref(), spec: spec, done: make(chan struct{})}
 	c, s := newPktPipe()
 	l.port = &chunkPort{pktEnd: c, lateBy: time.Millisecond}
 	// as node/modbus.go and cmd/modbus do: the serial port behind a response reader
 	rr := respreader.NewReadWriteCloser(l.port, 5*time.Second, c19rrChunkTimeout)
 	l.client = modbus.NewClient(modbus.NewRTU(rr), 0)
-	l.server = modbus.NewServer(1, modbus.NewRTU(s), l.regs, 0)
+	if serverK > 0 {
+		sp := &chunkPort{pktEnd: s, lateBy: time.Millisecond, k: serverK}
+		if serverLate {
+			sp.late = func(int) bool { return true }
+		}
+		sp.sticky = true
+		l.server = modbus.NewServer(1, modbus.NewRTU(respreader.NewReadWriteCloser(sp, 2*time.Second, c19rrChunkTimeout)), l.regs, 0)
+	} else {
+		l.server = modbus.NewServer(1, modbus.NewRTU(s), l.regs, 0)
+	}
 	go l.server.Listen(func(error) {}, func() {}, func() { close(l.done) })
 	return l
 }
@@ -166,7 +182,7 @@ var c19rrSpec = regMapSpec{Name: "dense0-255/pattern", Addrs: seqU16(0, 256), In
 // frames by real time, so one failure under machine load is not believed.
 func c19rrAttempt(c c19rrCase) (key, detail string) {
 	for try := 0; try < 3; try++ {
-		l := newRRLink(c19rrSpec)
+		l := newRRLink(c19rrSpec, c.ServerK, c.ServerLate)
 		key, detail = l.do(c)
 		l.close()
 		if key == "" {
@@ -192,11 +208,19 @@ func c19rrCases(thorough bool) []c19rrCase {
 	for _, q := range rds {
 		for _, k := range ks {
 			chunks := (q.resp + k - 1) / k
-			out = append(out, c19rrCase{q.op, q.addr, q.cnt, k, "now", 0}, c19rrCase{q.op, q.addr, q.cnt, k, "late", 0})
+			out = append(out, c19rrCase{Op: q.op, Addr: q.addr, Count: q.cnt, K: k, Pattern: "now"}, c19rrCase{Op: q.op, Addr: q.addr, Count: q.cnt, K: k, Pattern: "late"})
 			if chunks > 1 && (chunks <= 8 || thorough && chunks <= 32) {
 				for i := 0; i < chunks; i++ {
-					out = append(out, c19rrCase{q.op, q.addr, q.cnt, k, "late@i", i}, c19rrCase{q.op, q.addr, q.cnt, k, "now@i", i})
+					out = append(out, c19rrCase{Op: q.op, Addr: q.addr, Count: q.cnt, K: k, Pattern: "late@i", At: i}, c19rrCase{Op: q.op, Addr: q.addr, Count: q.cnt, K: k, Pattern: "now@i", At: i})
 				}
+			}
+		}
+	}
+	// the server behind a response reader as well (node/modbus.go wires both roles alike)
+	for _, q := range []rd{rds[0], rds[3], rds[5], rds[6]} {
+		for _, sk := range []int{1, 3, 8} {
+			for _, sl := range []bool{false, true} {
+				out = append(out, c19rrCase{Op: q.op, Addr: q.addr, Count: q.cnt, K: 32, Pattern: "now", ServerK: sk, ServerLate: sl})
 			}
 		}
 	}
@@ -204,7 +228,7 @@ func c19rrCases(thorough bool) []c19rrCase {
 }
 
 func checkC19RR(r *mc.Report, thorough bool) {
-	p := r.Part("rtu-through-response-reader", "real Client over RTU behind respreader.ReadWriteCloser (as node/modbus.go and cmd/modbus wire the serial port) <-> real Server.Listen: 8 reads with response frames of 7..255 bytes, the port handing the response out in pieces of at most k bytes per Read (k alphabet), each piece either at once or after 1 ms: all-at-once, all-late, and (up to 8 pieces; thorough 32) every single-piece departure from either; the client must return exactly what the server holds. Transactions and delivery patterns are enumerated; goroutine scheduling inside the response reader is the runtime's (a failure is believed only when it repeats on 3 fresh links)")
+	p := r.Part("rtu-through-response-reader", "real Client over RTU behind respreader.ReadWriteCloser (as node/modbus.go and cmd/modbus wire the serial port) <-> real Server.Listen: 8 reads with response frames of 7..255 bytes, the port handing the response out in pieces of at most k bytes per Read (k alphabet), each piece either at once or after 1 ms: all-at-once, all-late, and (up to 8 pieces; thorough 32) every single-piece departure from either; the client must return exactly what the server holds; 24 more transactions with the server behind a response reader too (request handed out in pieces of 1 / 3 / 8 bytes). Transactions and delivery patterns are enumerated; goroutine scheduling inside the response reader is the runtime's (a failure is believed only when it repeats on 3 fresh links)")
 	cases := c19rrCases(thorough)
 	var mu sync.Mutex
 	mc.ParallelFor(len(cases), func(i int) {
